@@ -248,6 +248,13 @@ class ModuleVistor(NodeVisitor):
             # None bases will be re-resolved in post-processing.
             expandbase = parent.expandName(str_base)
             baseobj = self.system.objForFullName(expandbase)
+            if baseobj is None:
+                # The base might have been moved (re-exported) already: 
+                # follow the alias left behind at its original location.
+                try:
+                    baseobj = self.system.find_object(expandbase)
+                except LookupError:
+                    baseobj = None
             
             if not isinstance(baseobj, model.Class):
                 baseobj = None
